@@ -153,6 +153,11 @@ pub fn check_rp_valid(sim: &Sim, snap: &Snap) -> Result<usize, Bad> {
     let mut allowed_unreachable = 0;
     for issue in &snap.rp.issues {
         if let Some(uri) = issue.strip_prefix("present-but-unlisted (or unreachable) file: ") {
+            if let Some(base) = &sim.foreign_publisher_base {
+                if uri.starts_with(base.as_str()) {
+                    continue;
+                }
+            }
             // allowed when the class is not expected to be certified
             if let Some((ca, rcn)) = pp_of(uri) {
                 if sim.model.cas.contains_key(&ca) && !class_expected_certified(sim, &ca, &rcn, 0) {
